@@ -138,16 +138,21 @@ def make_signal(form):
 
 
 # --------------------------------------------------------------------------
-def build_tree(cls_name, f):
+def build_tree(cls_name, f, lab="uniq"):
     from nutree import Tree
     from nutree.typed_tree import TypedTree
 
+    if lab == "eq":
+        # all nodes hold equal data (distinct ids): the traversal must tell nodes apart by identity
+        label, did = (lambda i: "x"), (lambda i: f"id{i}")
+    else:
+        label, did = (lambda i: f"n{i}"), None
     if cls_name == "typed":
         t = TypedTree("t")
-        nodes = gen.build(t, f, lambda i: f"n{i}", kind=lambda i: "kab"[i % 3] + "x")
+        nodes = gen.build(t, f, label, kind=lambda i: "kab"[i % 3] + "x", data_id=did)
     else:
         t = Tree("t")
-        nodes = gen.build(t, f, lambda i: f"n{i}")
+        nodes = gen.build(t, f, label, data_id=did)
     return t, nodes
 
 
@@ -156,7 +161,7 @@ def run_case(case, res):
 
     f = gen.decode(case["f"])
     sh = Shape(f)
-    t, nodes = build_tree(case.get("cls", "plain"), f)
+    t, nodes = build_tree(case.get("cls", "plain"), f, case.get("lab", "uniq"))
     start = case["start"]
     method = case["method"]
     add_self = case["add_self"]
@@ -296,6 +301,9 @@ def cases_for_shape(f, *, cls, all_forms, rng):
                 seq = sh.order(s, m, add_self)
                 yield {"cls": cls, "f": fc, "start": s, "method": m, "add_self": add_self, "mode": "visit", "sig": None}
                 for at in seq:
+                    if sh.n >= 3:
+                        yield {"cls": cls, "f": fc, "start": s, "method": m, "add_self": add_self, "mode": "visit", "lab": "eq",
+                               "sig": {"at": at, "form": SKIP_FORMS[(at + len(seq)) % 4]}}
                     forms = FORMS if all_forms else [rng.choice(SKIP_FORMS), rng.choice(STOP_FORMS), rng.choice(FORMS)]
                     for form in forms:
                         yield {"cls": cls, "f": fc, "start": s, "method": m, "add_self": add_self, "mode": "visit",
